@@ -40,11 +40,11 @@ static const char *const kind_ext[NKINDS] = {
 
 enum { M_NONE, M_TOKDEL, M_TOKDUP, M_TOKSWAP, M_NUMPERTURB, M_KWREORDER,
        M_LINEDEL, M_LINEDUP, M_TRUNCATE, M_YAMLKIND, M_RANDBYTES, M_INSERT,
-       M_SPLICE, M_KWREPEAT, M_YAMLALIAS, NMUT };
+       M_SPLICE, M_KWREPEAT, M_YAMLALIAS, M_TOKLEN, M_FREQEQ, NMUT };
 static const char *const mut_name[NMUT] = {
     "none", "tokDel", "tokDup", "tokSwap", "numPerturb", "kwReorder",
     "lineDel", "lineDup", "truncate", "yamlKind", "randBytes", "insert",
-    "splice", "kwRepeat", "yamlAlias"
+    "splice", "kwRepeat", "yamlAlias", "tokLen", "freqEq"
 };
 
 /* ------------------------------------------------------------------ seeds */
@@ -596,6 +596,8 @@ int main(int argc, char **argv)
 	vt_seed(&rng, seed * 1000003ull + (uint64_t)c);
 	if ((mut == M_YAMLKIND || mut == M_YAMLALIAS) && kind < K_VNACAL)
 	    mut = M_TOKDEL + (int)(j / nmut_plan) % 3;
+	if (mut == M_FREQEQ && IS_YAMLTEXT(kind))
+	    mut = M_TOKLEN;
 	lf_mutate(kind, mut, seedno, &rng, &in);
 	fprintf(stderr, "kind %s mut %s seed %d len %ld\n", kind_name[kind],
 		mut_name[mut], seedno, (long)in.n);
@@ -620,6 +622,8 @@ int main(int argc, char **argv)
 	    vt_seed(&rng, seed * 1000003ull + (uint64_t)c);
 	    if ((mut == M_YAMLKIND || mut == M_YAMLALIAS) && kind < K_VNACAL)
 		mut = M_TOKDEL + (int)(j / nmut_plan) % 3;
+	    if (mut == M_FREQEQ && IS_YAMLTEXT(kind))
+		mut = M_TOKLEN;
 	    lf_mutate(kind, mut, seedno, &rng, &in);
 	    snprintf(cid, sizeof(cid), "fuzz:%llu:%ld",
 		    (unsigned long long)seed, c);
